@@ -35,8 +35,12 @@ func (e *Engine) autoTags(kind string, fn *ssa.Function) []string {
 	}
 	var tags []string
 	seen := map[string]bool{}
+	topPkg := ""
+	if top.Pkg != nil {
+		topPkg = top.Pkg.Pkg.Path()
+	}
 	for _, at := range e.w.spec.AutoTags {
-		if at.Kind != kind {
+		if at.Kind != kind || at.Pkg != topPkg {
 			continue
 		}
 		if at.File == "*" || strings.HasSuffix(file, at.File) {
